@@ -54,14 +54,15 @@ Definition mk_tag (mk : modk) : Z :=
   match mk with
   | MReduce => 1 | MScan => 2 | MFold => 3 | MRows => 4 | MEach => 5 | MInventory => 6
   | MTable => 7 | MTuples => 8 | MGroup => 9 | MPartition => 10 | MSpawn => 11 | MPool => 12
-  | MRepeat => 13 | MStencil => 14 | MReduceContent => 15 | MRepeatWithInverse => 17
+  | MRepeat => 13 | MStencil => 14 | MReduceContent => 15 | MRepeatWithInverse => 17 | MHandleSig => 20
   | MReduceDepth d => 1000 + Z.of_nat d
   | _ => 0 end%Z.
 (** values popped / pushed by the modifier as a whole (run_prim.rs / algorithm/{zip,reduce,loops,table,groups}.rs) *)
 Definition iter_ao (mk : modk) (sg : sig) : option (nat * nat) :=
   match mk with
   | MReduce | MScan => Some (Nat.max (sa sg - so sg) 1, so sg)
-  | MRows | MEach | MInventory | MTable | MTuples => Some (sa sg, so sg)
+  (* MHandleSig: subscripted table, sided tuples, reduce-conjoin-inventory *)
+  | MRows | MEach | MInventory | MTable | MTuples | MHandleSig => Some (sa sg, so sg)
   | MFold => if Nat.eqb (sa sg) 0 && Nat.eqb (so sg) 0 then None
              else if Nat.eqb (sa sg) 0 then Some (0, so sg)
              else if sa sg <=? so sg then Some (sa sg, so sg + 1 - sa sg) else Some (sa sg, so sg)
@@ -94,6 +95,41 @@ Fixpoint iter_loop (body : rt -> res) (argsof : Z -> list sval -> option (list s
               iter_loop body argsof fa fo k (i + 1)%Z (set_stk s2 (skipn fo (stk s2))) (acc ++ firstn fo (stk s2))
           | r => (r, acc) end
       | None => (Err false cur, acc) end
+  end.
+
+(** both with a numeric subscript (run_prim.rs ImplPrimitive::BothImpl, no side): the operand runs k
+    times, first on the deepest group of [a] arguments, then on the next one above it, ... ; the
+    groups above the deepest are popped before the first run *)
+Fixpoint both_loop (body : rt -> res) (a : nat) (k : nat) (s : rt) {struct k} : res :=
+  match k with
+  | O => Ok s
+  | S k' =>
+      match k' with
+      | O => body s
+      | S _ =>
+          if negb (need a s) then Err false s else
+          let vals := firstn a (stk s) in
+          bind (both_loop body a k' (set_stk s (skipn a (stk s))))
+               (fun s2 => body (set_stk s2 (vals ++ stk s2)))
+      end
+  end.
+
+(** un-both (ImplPrimitive::UnBothImpl, no side): the operand runs k times, first on the top group;
+    the outputs of all runs but the last are set aside and pushed back at the end, the first
+    run's on top *)
+Fixpoint unboth_loop (body : rt -> res) (o : nat) (k : nat) (s : rt) {struct k} : res :=
+  match k with
+  | O => Ok s
+  | S k' =>
+      match k' with
+      | O => body s
+      | S _ =>
+          bind (body s) (fun s1 =>
+            if negb (need o s1) then Err false s1 else
+            let vals := firstn o (stk s1) in
+            bind (unboth_loop body o k' (set_stk s1 (skipn o (stk s1))))
+                 (fun s2 => Ok (set_stk s2 (vals ++ stk s2))))
+      end
   end.
 
 Section Exec.
@@ -337,7 +373,7 @@ Section Exec.
             let vals := firstn k (stk s) in
             bind (ex f (set_stk s (skipn k (stk s)))) (fun s2 => Ok (set_stk s2 (vals ++ stk s2)))
         | (MReduce | MScan | MFold | MRows | MEach | MInventory | MTable | MTuples
-           | MGroup | MPartition | MStencil | MReduceContent | MReduceDepth _), [(sg, f)] =>
+           | MGroup | MPartition | MStencil | MReduceContent | MReduceDepth _ | MHandleSig), [(sg, f)] =>
             match iter_ao mk sg with
             | Some (na, no) => iter_exec (ex f) (mk_tag mk) na no (sa sg) (so sg) s
             | None => Unk end
@@ -351,6 +387,18 @@ Section Exec.
             match iter_ao mk sg with
             | Some (na, no) => iter_exec_nn (without_fill_body (ex f)) (mk_tag mk) na no (sa sg) (so sg) s
             | None => Unk end
+        | MBothImpl reused k, [(sg, f)] =>
+            (* the sided forms (reused > 0) are outside the model *)
+            if negb (Nat.eqb reused 0) then Unk else
+            if negb (need (sa sg * (k - 1)) s) then Err false s else
+            both_loop (ex f) (sa sg) k s
+        | MUnBothImpl reused k, [(sg, f)] =>
+            if negb (Nat.eqb reused 0) then Unk else unboth_loop (ex f) (so sg) k s
+        | MOnSub k, [(_, f)] =>
+            (* copy_n(k); exec f; push the copies back *)
+            if negb (need k s) then Err false s else
+            let vals := firstn k (stk s) in
+            bind (ex f s) (fun s2 => Ok (set_stk s2 (vals ++ stk s2)))
         | (MSpawn | MPool), [(sg, _)] =>
             (* the operand runs on another thread's stacks: here only the arguments go and a handle comes *)
             iter_exec (fun s => Unk) (mk_tag mk) (sa sg) 1 0 0 s
